@@ -71,15 +71,15 @@ def shapeOf (k : Kase) : Option Shape :=
   | "bchan" => some (.feeder { cap := k.buf, onceGo := false, srcChecksCtx := true, eager := true })
   | "dtmap" | "adtmap" => some (.feeder { cap := 0, onceGo := false, srcChecksCtx := false, eager := false })
   | "merge" => some (.fanIn { cap := 0, srcChecksCtx := true, closerCtx := true } n false)
-  | "genpar" | "itgen" => some (.fanIn { cap := 2 * n + 1, srcChecksCtx := false, closerCtx := true } n true)
+  | "genpar" | "itgen" => some (.fanIn { cap := 2 * n + 1, srcChecksCtx := true, closerCtx := true } n true)
   | "split" | "chanread" =>
-    some (.fanOut { n := n, hasOut := false, outCap := 0, hasCloser := false, closerCtx := false, onceGo := false, lazy := false })
+    some (.fanOut { n := n, hasOut := false, outCap := 0, hasCloser := false, closerCtx := false, onceGo := false, lazy := false, workerCancels := false })
   | "pp" | "pfe" | "worker" =>
-    some (.fanOut { n := n, hasOut := false, outCap := 0, hasCloser := true, closerCtx := false, onceGo := false, lazy := false })
+    some (.fanOut { n := n, hasOut := false, outCap := 0, hasCloser := true, closerCtx := false, onceGo := false, lazy := false, workerCancels := false })
   | "map" | "itmap" =>
-    some (.fanOut { n := n, hasOut := true, outCap := 0, hasCloser := true, closerCtx := true, onceGo := false, lazy := true })
+    some (.fanOut { n := n, hasOut := true, outCap := 0, hasCloser := true, closerCtx := true, onceGo := false, lazy := true, workerCancels := true })
   | "pbuf" =>
-    some (.fanOut { n := n, hasOut := true, outCap := k.workers, hasCloser := true, closerCtx := false, onceGo := true, lazy := true })
+    some (.fanOut { n := n, hasOut := true, outCap := k.workers, hasCloser := true, closerCtx := false, onceGo := true, lazy := true, workerCancels := false })
   | _ => none
 
 /-- order is part of the claim: Feeder constructs with a sequential source, and a single worker -/
